@@ -64,7 +64,8 @@ class C15(Check):
                    'frames fit the prefix size (len < 2**(8*prefix_size))']
     ANCHORS = ['rxsci/framing/line.py', 'rxsci/framing/length_prefix.py']
     REQUIRED_TAGS = ['large-frames-of-exactly-the-same-size', 'reentrant-consumer', 'item-is-a-framed-batch-cut-on-its-record-boundaries', 'line', 'lp1', 'lp2', 'lp4', 'lp8', 'little', 'big', 'empties', 'trunc',
-                     'cut-in-prefix', 'cut-in-frame', 'empty-list', 'empty-item', 'stream>64KiB', 'chunks-as-bytearray', 'chunks-as-memoryview', 'items-as-str-subclass-instances', 'lines-over-64Ki-cut-at-their-terminators']
+                     'cut-in-prefix', 'cut-in-frame', 'empty-list', 'empty-item', 'stream>64KiB', 'chunks-as-bytearray', 'chunks-as-memoryview', 'items-as-str-subclass-instances', 'lines-over-64Ki-cut-at-their-terminators',
+                     'large-frame-completed-by-a-chunk-ending-inside-the-next-header']
 
     REQUIRED_OBSERVED = ['triples_of_staggered_subscriptions', 'bytes_like_runs']
 
@@ -182,6 +183,19 @@ class C15(Check):
                 cuts = sorted(set(ends if style == 0 else [e + 1 for e in ends] if style == 1 else ends + [e + 1 for e in ends]))
                 yield dict(self._mk(lcfg, items, tuple(c for c in cuts if 0 < c < len(s)), empties=False), long_lines=True)
                 continue
+            if k % 150 == 75:
+                # one record of 64 KiB or more followed by a few small ones, read in blocks: the chunk that completes the large frame
+                # ends INSIDE the header of the next frame (1 .. prefix-1 bytes of it), and little data follows - a length remembered
+                # from the frame just delivered must not be taken for the length of the frame that is pending
+                env = cfgs[1 + 4 + ((k // 150) % 4)]           # prefix 4 or 8, both byte orders
+                big_n = [65536, 70000, 76800, 1 << 17][(k // 150) % 4]
+                items = [rng.randbytes(big_n), b'x', b'yy', b'', b'tail']
+                s = _reference_stream(env, items)
+                end = env['prefix'] + big_n
+                for j in range(1, env['prefix']):
+                    for first in ((), (1000,), (env['prefix'],)):
+                        yield dict(self._mk(env, items, first + (end + j,), empties=False), large_then_small=True)
+                continue
             if k % 150 == 45:
                 # fixed-size large records (tensors of one shape): frames of 1-1.5 MiB, all of EXACTLY the same size, arriving in
                 # 64 KiB blocks - a receive buffer kept from one frame to the next must start empty
@@ -240,6 +254,8 @@ class C15(Check):
             out.tags += ['lp%d' % case['prefix'], case['byteorder']]
         if case.get('equal_large'):
             out.tags.append('large-frames-of-exactly-the-same-size')
+        if case.get('large_then_small'):
+            out.tags.append('large-frame-completed-by-a-chunk-ending-inside-the-next-header')
         if case.get('long_lines'):
             out.tags.append('lines-over-64Ki-cut-at-their-terminators')
         if case.get('envelope'):
